@@ -30,7 +30,7 @@ def shards(tier):
 
 
 def required_classes(tier):
-    return ["honest:custom-suite", "honest:basic", "honest:aug", "honest:pop", "pop", "reject:range", "reject:type", "keygen", "keygen:retry(W5)", "key:boundary", "key:bitlen", "key:random",
+    return ["soak:valid-public-keys", "honest:custom-suite", "honest:basic", "honest:aug", "honest:pop", "pop", "reject:range", "reject:type", "keygen", "keygen:retry(W5)", "key:boundary", "key:bitlen", "key:random",
             "msg:empty", "msg:block-boundary", "msg:pk"]
 
 
@@ -109,6 +109,30 @@ def run(rec):
         honest(rec, key, Sx, sk, rng.randbytes(rng.choice([0, 32, 65])))
         if key.startswith("pop"):
             pop(rec, Sx, sk)
+    # ---- soak: more distinct VALID public keys than any bounded table in the key-handling modules can hold, then the first signer again
+    if rec.shard % 8 == 3 or not quick:
+        import py_ecc.bls.g2_primitives as gp
+        from ..model import zcash as Zm
+        from .common import soak_size, soak_then_reprobe
+        E1m, G1m = params.BLS_E1, params.bls_generators()[0]
+        nsoak = soak_size(["py_ecc.bls.g2_primitives", "py_ecc.bls.ciphersuites", "py_ecc.bls.point_compression"])
+        skA, mA = rng.randrange(1, R), b"signed before the soak"
+        suiteA = names[rec.shard % 3]
+
+        def valid_keys():
+            Pt = E1m.mul(G1m, rng.randrange(1, R))
+            j = 0
+            while True:
+                Pt = E1m.add(Pt, G1m)
+                kb = Zm.enc_g1(Pt)
+                j += 1
+                if j % 40 == 0:
+                    yield (lambda kb=kb: call(suites[suiteA].KeyValidate, kb))
+                else:
+                    yield (lambda kb=kb: call(gp.pubkey_to_G1, kb))
+        soak_then_reprobe(rec, "valid-public-keys", [lambda: honest(rec, suiteA, suites[suiteA], skA, mA), lambda: pop(rec, suites["pop"], skA)], valid_keys(), nsoak)
+    else:
+        rec.case("soak:valid-public-keys", None, nontrivial=False)
     # ---- refused keys (monitor M-bls.reject decides)
     for j, bad in enumerate(BAD_KEYS):
         if not rec.mine(j):
